@@ -50,9 +50,11 @@ EXPRS = [
     ("(A > 0 || B != 0) && !defined(C)", lambda d: (V(d, "A") > 0 or V(d, "B") != 0) and "C" not in d),
     ("A", lambda d: V(d, "A") != 0),
     ("! B", lambda d: V(d, "B") == 0),
+    ("defined(A) /* why */ && 1 // really", lambda d: "A" in d),
+    ("(0 - 7) / 2 == -3 && (0 - 7) % 3 == -1 && B - 7 / 2 >= B - 3", lambda d: True),
 ]
 if not THOROUGH:
-    EXPRS = [EXPRS[i] for i in (0, 1, 5, 6, 7, 9)]
+    EXPRS = [EXPRS[i] for i in (0, 1, 3, 5, 6, 7, 9, 12, 13)]
 HEADS = [("ifdef", "A"), ("ifndef", "B")] + [("if", i) for i in range(len(EXPRS))]
 SIMPLE = [("code",), ("def", "B", "1"), ("def", "A", "0"), ("undef", "A"), ("def", "C", None)]
 ELIFS = list(range(len(EXPRS)))[:: 2 if not THOROUGH else 1]
@@ -156,9 +158,7 @@ def ref_pp(items, defs, active=True, out=None):
         elif k == "def":
             if active:
                 val = 1 if it[2] is None else int(it[2])
-                if it[1] in defs and defs[it[1]] != val:
-                    raise Redefinition()
-                defs[it[1]] = val
+                defs[it[1]] = val  # a later definition replaces an earlier one (cpp: warning only)
         elif k == "undef":
             if active:
                 defs.pop(it[1], None)
